@@ -3,6 +3,6 @@
 d=/verif/seeded/$1; id=$2; tier=${3:-quick}
 cd /repo && [ -z "$(git status --porcelain --untracked-files=no)" ] || { echo "/repo not clean"; exit 3; }
 { git apply "$d/patch.diff" 2>/dev/null || git apply --3way "$d/patch.diff" 2>/dev/null; } || { echo "PATCH DOES NOT APPLY"; git reset -q --hard HEAD; exit 3; }
-cd /verif && ./check "$id" "$tier" 2>&1 | grep -v "^\[check\]" | head -${LINES_MAX:-12}
+cd /verif && mkdir -p .work/evidence-scratch && VERIF_EVIDENCE_DIR=/verif/.work/evidence-scratch ./check "$id" "$tier" 2>&1 | grep -v "^\[check\]" | head -${LINES_MAX:-12}
 git -C /repo reset -q --hard HEAD
 git -C /repo status --short | head -3
